@@ -110,6 +110,13 @@ def run(repo, gen_dir):
     guards = len(re.findall(r"if\s*!original_order\s*\{", g))
     item("tls.rs sort/retain guarded by !original_order", guards == 2, f"expected 2 `if !original_order` blocks, found {guards}", ["C04"])
 
+    mz = re.search(r'const EMPTY_LIST_HASH: &str = "([^"]*)";', g)
+    mzb = re.search(r"let ja4_b_hash = if ciphers_for_b\.is_empty\(\)\s*\{\s*EMPTY_LIST_HASH\.to_string\(\)\s*\}\s*else\s*\{\s*hash12\(&ja4_b_raw\)\s*\};", g)
+    mzc = re.search(r"let ja4_c_hash = if extensions_for_c\.is_empty\(\)\s*\{\s*EMPTY_LIST_HASH\.to_string\(\)\s*\}\s*else\s*\{\s*hash12\(&ja4_c_raw\)\s*\};", g)
+    item("tls.rs empty list hash constant and its two guards", mz and mzb and mzc,
+         "EMPTY_LIST_HASH / `if ciphers_for_b.is_empty()` / `if extensions_for_c.is_empty()` not found", ["C04"])
+    out.append(f'/-- `EMPTY_LIST_HASH` -/\ndef emptyListHash : String := "{mz.group(1) if mz else ""}"')
+
     h = _strip_comments(_fn_body(tls, "hash12"))
     mh12 = re.search(r"\[\.\.(\d+)\]", h)
     item("tls.rs hash12 [..N]", mh12, "[..N] not found in hash12", ["C04"])
@@ -148,12 +155,36 @@ def run(repo, gen_dir):
                 if depth == 0:
                     break
             j += 1
-        x = re.findall(r"TlsVersion::(\w+)\s*$", d[mdef.end():j].strip())
-        dflt = x[0] if x else ""
+        x = re.findall(r"TlsVersion::(\w+)(\(legacy_version\.0\))?\s*$", d[mdef.end():j].strip())
+        dflt = x[0][0] if x else ""
+        dflt_code = bool(x and x[0][1])
+    else:
+        dflt_code = False
+    carms = re.findall(r"tls_parser::TlsVersion\((0x[0-9a-fA-F]+|\d+)\)\s*=>\s*TlsVersion::(\w+)", d)
     item("tls_process.rs determine_tls_version legacy arms", len(larms) >= 1 and dflt, "legacy arms / default arm not found", ["C04"])
     out.append("/-- arms `tls_parser::TlsVersion::A => TlsVersion::B` -/\ndef legacyArms : List (String × String) := ["
                + ", ".join(f'("{a}", "{b}")' for a, b in larms) + "]")
-    out.append(f'/-- the `_ =>` arm -/\ndef legacyDefault : String := "{dflt}"')
+    out.append("/-- arms `tls_parser::TlsVersion(code) => TlsVersion::B` -/\ndef legacyCodeArms : List (Nat × String) := ["
+               + ", ".join(f'({_int(a)}, "{b}")' for a, b in carms) + "]")
+    out.append(f'/-- the `_ =>` arm: the variant, and whether it carries `legacy_version.0` -/\ndef legacyDefault : String := "{dflt}"')
+    out.append(f"def legacyDefaultCarriesCode : Bool := {'true' if dflt_code else 'false'}")
+
+    # --- extract_tls_signature_from_client_hello: GREASE wire type, version from supported_versions
+    e = _strip_comments(_fn_body(tp, "extract_tls_signature_from_client_hello"))
+    mg = re.search(r"TlsExtension::Grease\((\w+),\s*_\)\s*=>\s*\*\1\s*,\s*_\s*=>\s*TlsExtensionType::from\(extension\)\.into\(\)", e)
+    item("tls_process.rs extension type of a Grease extension is its wire type", mg,
+         "`match extension { TlsExtension::Grease(t, _) => *t, _ => TlsExtensionType::from(extension).into() }` not found", ["C04"])
+    msv1 = re.search(r"TlsExtension::SupportedVersions\((\w+)\)\s*=>\s*\{\s*supported_versions\s*=\s*Some\(\1\.iter\(\)\.map\(\|v\|\s*v\.0\)\.collect\(\)\);", e)
+    msv2 = re.search(r"let highest_supported = supported_versions\.as_deref\(\)\.and_then\(\|versions\|\s*\{\s*versions\s*\.iter\(\)\s*\.copied\(\)\s*"
+                     r"\.filter\(\|v\|\s*!TLS_GREASE_VALUES\.contains\(v\)\)\s*\.max\(\)\s*\}\);", e)
+    msv3 = re.search(r"let version = match highest_supported \{\s*Some\(highest\) => determine_tls_version\(&tls_parser::TlsVersion\(highest\), &\[\]\),\s*"
+                     r"None => determine_tls_version\(&client_hello\.version, &extensions\),\s*\};", e)
+    item("tls_process.rs version = highest non-GREASE supported_versions entry, else legacy", msv1 and msv2 and msv3,
+         "the supported_versions capture / `highest_supported` / `let version = match highest_supported` shape was not found", ["C04"])
+    mcf = re.search(r"\.filter\(\|&cipher\|\s*!TLS_GREASE_VALUES\.contains\(&cipher\)\)", e)
+    mef = re.search(r"if\s*!TLS_GREASE_VALUES\.contains\(&ext_type\)\s*\{\s*extensions\.push\(ext_type\);", e)
+    item("tls_process.rs GREASE filtered from cipher suites and extension types at extraction", mcf and mef,
+         "the two TLS_GREASE_VALUES filters of extract_tls_signature_from_client_hello were not found", ["C04"])
 
     # --- reader
     a = _strip_comments(_fn_body(rd, "add_bytes"))
